@@ -83,10 +83,12 @@ def wire4 (c : GCfg) (g : GState) (fnode xnode : Nat) (ci : Option Nat) : GState
     (fun g j => if some j != ci then gAddFrom c g j xnode else g) g
 
 /-- every input of `f` is an input of the current internal operation -/
-def wire5 (c : GCfg) (origin : Option Node) (g : GState) (fnode xnode : Nat) (ci : Option Nat) : GState :=
+def wire5 (c : GCfg) (origin : Option Node) (g : GState) (fnode xnode : Nat) (ci : Option Nat)
+    (repeated : Bool) : GState :=
   match ci with
   | some i =>
-    let g := (objectsOf g.fd.frm fnode).eraseDups.foldl (fun g fin => if xnode != fin then gAddFrom c g i fin else g) g
+    let g := (objectsOf g.fd.frm fnode).eraseDups.foldl
+      (fun g fin => if xnode != fin || repeated then gAddFrom c g i fin else g) g
     match origin with
     | some o => if c.withWorkflowOrigin then g.add (.b i, .tf "origin", o) else g
     | none => g
@@ -97,7 +99,7 @@ def appWire (c : GCfg) (origin : Option Node) (g : GState) (fnode xnode : Nat) (
     (cur : Nat) : GState :=
   addOrigin c origin
     (wire5 c origin (wire4 c (wire3 c (gAddFrom c (wire1 c g xnode ci) fnode xnode) xnode ci) fnode xnode ci)
-      fnode xnode ci) cur
+      fnode xnode ci ((objectsOf (wire1 c g xnode ci).fd.frm fnode).contains xnode)) cur
 
 theorem addExpr_src (G : GLang) (c : GCfg) (root : Node) (origin : Option Node) (g : GState) (id : Nat)
     (l : Option String) (ty : Term) (cur : Option Nat) (inter : Bool) :
@@ -237,8 +239,8 @@ theorem wire4_step (c : GCfg) (g : GState) (fnode xnode : Nat) (ci : Option Nat)
   · exact .addFrom g j xnode false
   · exact .refl g
 
-theorem wire5_step (c : GCfg) (origin : Option Node) (g : GState) (fnode xnode : Nat) (ci : Option Nat) :
-    GStep c NotFD AnyQ g (wire5 c origin g fnode xnode ci) := by
+theorem wire5_step (c : GCfg) (origin : Option Node) (g : GState) (fnode xnode : Nat) (ci : Option Nat)
+    (rep : Bool) : GStep c NotFD AnyQ g (wire5 c origin g fnode xnode ci rep) := by
   unfold wire5
   cases ci with
   | none => exact .refl g
@@ -253,7 +255,7 @@ theorem appWire_step (c : GCfg) (origin : Option Node) (g : GState) (fnode xnode
     (cur : Nat) : GStep c NotFD AnyQ g (appWire c origin g fnode xnode ci cur) := by
   unfold appWire
   exact .trans (wire1_step c g xnode ci) (.trans (.addFrom _ fnode xnode false) (.trans (wire3_step c _ xnode ci)
-    (.trans (wire4_step c _ fnode xnode ci) (.trans (wire5_step c origin _ fnode xnode ci)
+    (.trans (wire4_step c _ fnode xnode ci) (.trans (wire5_step c origin _ fnode xnode ci _)
       (.originAdd origin _ cur)))))
 
 theorem addExpr_step (G : GLang) (c : GCfg) (root : Node) (origin : Option Node) :
